@@ -251,6 +251,11 @@ def _run_shard(ctx, binp, prop, i, n, extra, results, deadline, env=None):
                                stdout=subprocess.PIPE, stderr=subprocess.STDOUT, text=True, errors="replace",
                                timeout=max(5, deadline - time.time()))
             rc, tail = p.returncode, p.stdout[-1500:]
+            # a Go `panic:` / `fatal error:` dump names the crashing goroutine FIRST and may be long: keep the
+            # head of the dump too, so that frames in the tree under test are seen by the classification below
+            k = max(p.stdout.rfind("\npanic: "), p.stdout.rfind("\nfatal error: "), 0 if p.stdout.startswith(("panic: ", "fatal error: ")) else -1)
+            if k >= 0 and len(p.stdout) - k > 1500:
+                tail = p.stdout[k:k + 2500] + "\n[…]\n" + tail
         except subprocess.TimeoutExpired as e:
             rc, tail = -9, "harness process exceeded the run deadline"
             info["timeout"] = True
@@ -276,7 +281,7 @@ def _run_shard(ctx, binp, prop, i, n, extra, results, deadline, env=None):
             info["crashes"].append({"idx": int(cases[-1][0]), "rc": rc, "output": tail[-600:]})
         elif rc not in (3, 4):
             # died outside a case (generator / setup): cannot make progress
-            info["fatal"] = f"harness exited with status {rc} outside a case: {tail[-600:]}"
+            info["fatal"] = f"harness exited with status {rc} outside a case: {tail[-4500:]}"
             break
         if last_idx <= last_progress:
             info["fatal"] = f"harness made no progress after restart (idx {last_idx}): {tail[-400:]}"
